@@ -231,7 +231,10 @@ def run(ctx, canary=False):
     # chordless cycles, grids and wheels: the structures on which a wrong triangulation first shows (fill-in of fill-in)
     hard = {"cycle5": (5, [(0, 1), (1, 2), (2, 3), (3, 4), (4, 0)]), "cycle6": (6, [(0, 1), (1, 2), (2, 3), (3, 4), (4, 5), (5, 0)]),
             "grid2x3": (6, [(0, 1), (1, 2), (3, 4), (4, 5), (0, 3), (1, 4), (2, 5)]),
-            "cycle7": (7, [(i, (i + 1) % 7) for i in range(7)]), "prism": (6, [(0, 1), (1, 2), (2, 0), (3, 4), (4, 5), (5, 3), (0, 3), (1, 4), (2, 5)])}
+            "cycle7": (7, [(i, (i + 1) % 7) for i in range(7)]),
+            # a chordless cycle next to attributes that occur in no clique (fewer edges than nodes, yet not a forest)
+            "cycle4+isolated": (5, [(0, 1), (0, 2), (1, 3), (2, 3)]), "cycle5+2isolated": (7, [(0, 1), (1, 2), (2, 3), (3, 4), (4, 0)]),
+            "cycle4+edge+isolated": (8, [(0, 1), (0, 2), (1, 3), (2, 3), (4, 5)]), "prism": (6, [(0, 1), (1, 2), (2, 0), (3, 4), (4, 5), (5, 3), (0, 3), (1, 4), (2, 5)])}
     hard_orders = []
     for name, (n, edges) in hard.items():
         V = list(LETTERS[:n])
